@@ -39,6 +39,28 @@ theorem fnPg_flat (i : Nat) (t : String) (h : fnPg i = some t) : scanC 0 t.toLis
   unfold fnPg at h
   split at h <;> first | (cases h; decide) | cases h
 
+theorem joinKw_flat (i : Nat) (t : String) (h : joinKw i = some t) : scanC 0 t.toList = some 0 := by
+  unfold joinKw at h
+  split at h <;> first | (cases h; decide) | cases h
+theorem lockKw_flat (i : Nat) (t : String) (h : lockKw i = some t) : scanC 0 t.toList = some 0 := by
+  unfold lockKw at h
+  split at h <;> first | (cases h; decide) | cases h
+theorem lockBehaviorKw_flat (i : Nat) (t : String) (h : lockBehaviorKw i = some t) : scanC 0 t.toList = some 0 := by
+  unfold lockBehaviorKw at h
+  split at h <;> first | (cases h; decide) | cases h
+theorem subOpKw_flat (i : Nat) (t : String) (h : subOpKw i = some t) : scanC 0 t.toList = some 0 := by
+  unfold subOpKw at h
+  split at h <;> first | (cases h; decide) | cases h
+theorem keywordKw_flat (i : Nat) (t : String) (h : keywordKw i = some t) : scanC 0 t.toList = some 0 := by
+  unfold keywordKw at h
+  split at h <;> first | (cases h; decide) | cases h
+
+/-- a keyword from a regenerated table -/
+theorem b_kwPiece (o : Option String) (h : ∀ t, o = some t → scanC 0 t.toList = some 0) : B (kwPiece o) := by
+  cases o with
+  | none => exact B_bad
+  | some t => exact B_S t (h t rfl)
+
 theorem b_rOp (d : Backend) (o : Op) : B (rOp d o) := by
   cases o with
   | custom s => exact B_raw _
@@ -73,10 +95,10 @@ theorem b_rFn (d : Backend) (f : Fn) : B (rFn d f) := by
     · exact B_bad
 
 theorem b_rKw (kw : Kw) : B (rKw kw) := by
-  cases kw <;> first | exact B_raw _ | (simp only [rKw]; bal)
+  cases kw <;> first | exact B_raw _ | (simp only [rKw]; exact b_kwPiece _ (fun t h => keywordKw_flat _ t h))
 
 theorem b_rSubOp (d : Backend) (o : SubOp) : B (rSubOp d o) := by
-  cases o <;> simp only [rSubOp] <;> (try split) <;> bal
+  cases o <;> simp only [rSubOp] <;> (try split) <;> first | exact B_bad | exact b_kwPiece _ (fun t h => subOpKw_flat _ t h)
 
 theorem b_rOptSubOp (d : Backend) (o : Option SubOp) : B (rOptSubOp d o) := by
   cases o with
@@ -85,7 +107,7 @@ theorem b_rOptSubOp (d : Backend) (o : Option SubOp) : B (rOptSubOp d o) := by
 
 theorem b_rJoinType (d : Backend) (n : Nat) : B (rJoinType d n) := by
   unfold rJoinType
-  split <;> (try split) <;> bal
+  split <;> first | exact B_bad | exact b_kwPiece _ (fun t h => joinKw_flat _ t h)
 
 theorem b_rColRef (c : ColRef) : B (rColRef c) := by cases c <;> (simp only [rColRef]; bal)
 
@@ -186,9 +208,12 @@ theorem b_rOptSample (x : Option Sample) : B (rOptSample x) := by
 
 theorem b_rLock (d : Backend) (l : Lock) : B (rLock d l) := by
   unfold rLock
-  refine B_ite B_nil (B.app (B.app ?_ (B_ite B_nil (B.app (B_S _ (by decide)) (b_rTNames _ true)))) ?_)
-  · split <;> bal
-  · split <;> bal
+  refine B_ite B_nil (B.app (B.app (B.app (B_S _ (by decide)) (b_kwPiece _ (fun t h => lockKw_flat _ t h)))
+    (B_ite B_nil (B.app (B_S _ (by decide)) (b_rTNames _ true)))) ?_)
+  unfold rLockBehavior
+  split
+  · exact b_kwPiece _ (fun t h => lockBehaviorKw_flat _ t h)
+  · exact B_nil
 
 theorem b_rOptLock (d : Backend) (l : Option Lock) : B (rOptLock d l) := by
   cases l with
